@@ -1,4 +1,5 @@
-"""GenRemap — the byte-level base_commit_sha rewrite of the note-remapping shortcut (C15):
+"""GenRemap — facts for C15.  The commit-object header scan of load_commit_metadata_batch (keywords, early exit).
+The byte-level base_commit_sha rewrite of the note-remapping shortcut:
 the field marker, the whitespace set of the skip loops, and WHERE the marker is searched
 (whole note = the historical shape; below the first divider line = the repaired shape)."""
 import re
@@ -49,7 +50,33 @@ def generate(L):
     i3 = rn.rfind("note_content.to_string()")
     if not (0 <= i1 < i2 < i3):
         raise L.GenError("remap_note_content_for_target_commit: attempt / fallback / unchanged order not recognised")
+    # ---- the commit-object header scan of load_commit_metadata_batch (the comparator compares the trees it returns)
+    lm = L.find_fn(src, "load_commit_metadata_batch", REL)
+    k = lm.find("for line in content.lines()")
+    if k < 0:
+        raise L.GenError("load_commit_metadata_batch: `for line in content.lines()` not found")
+    loop = lm[k:lm.find("metadata_by_commit.insert", k)]
+    mt = re.search(r"if\s+let\s+Some\(rest\)\s*=\s*line\.strip_prefix\(\s*(" + L.STR_LIT + r")\s*\)\s*\{\s*"
+                   r"tree_oid\s*=\s*rest\.trim\(\)\.to_string\(\);\s*\}", loop)
+    mp = re.search(r"else\s+if\s+first_parent\.is_none\(\)\s*&&\s*let\s+Some\(rest\)\s*=\s*line\.strip_prefix\(\s*("
+                   + L.STR_LIT + r")\s*\)\s*\{\s*first_parent\s*=\s*Some\(rest\.trim\(\)\.to_string\(\)\);\s*\}", loop)
+    if not mt or not mp or mt.end() > mp.start():
+        raise L.GenError("load_commit_metadata_batch: the tree / first-parent header tests (strip_prefix, trim) were not "
+                         "recognised")
+    after = loop[mp.end():]
+    brk = re.match(r"\s*if\s*!tree_oid\.is_empty\(\)\s*&&\s*first_parent\.is_some\(\)\s*\{\s*break;\s*\}\s*\}\s*$", after)
+    if brk:
+        early = True
+    elif re.match(r"\s*\}\s*$", after):
+        early = False
+    else:
+        raise L.GenError("load_commit_metadata_batch: unexpected statements after the header tests in the line loop")
+    kw_tree, kw_parent = L.unescape(mt.group(2)), L.unescape(mp.group(2))
     return "\n".join([
+        f"Definition meta_kw_tree : list N := {L.coq_str(kw_tree)}.",
+        f"Definition meta_kw_parent : list N := {L.coq_str(kw_parent)}.",
+        "(* true: the line loop stops as soon as the tree and the first parent are known *)",
+        f"Definition meta_early_exit : bool := {L.coq_bool(early)}.",
         f"Definition remap_marker : list N := {L.coq_str(field)}.",
         f"Definition remap_ws : list N := {L.coq_str(chars)}.",
         "(* true: the marker is searched only below the first divider line (repaired shape);",
